@@ -16,6 +16,8 @@ import IsoDT.Driver.Strftime
 import IsoDT.Driver.Construct
 import IsoDT.Driver.RatOps
 import IsoDT.Driver.RatOps2
+import IsoDT.Driver.RatOps3
+import IsoDT.Driver.DurQ
 import IsoDT.Driver.SpecOps
 
 open IsoDT IsoDT.Model
@@ -324,6 +326,8 @@ def extDispatch (toks : List String) : Option String :=
   <|> IsoDT.Driver.Strftime.dispatch toks
   <|> IsoDT.Driver.RatOps.dispatch toks
   <|> IsoDT.Driver.RatOps2.dispatch toks
+  <|> IsoDT.Driver.RatOps3.dispatch toks
+  <|> IsoDT.Driver.DurQ.dispatch toks
   <|> IsoDT.Driver.SpecOps.dispatch toks
   -- <|> IsoDT.Driver.Foo.dispatch toks
 
